@@ -379,9 +379,12 @@ class Ctx:
                 break
             out = rep.get("_stdout", "")
             case = None
+            closed = False
             try:
-                case = int(open(prog).read().strip())
-            except (OSError, ValueError):
+                words = open(prog).read().split()
+                case = int(words[0])
+                closed = "closed" in words[1:]
+            except (OSError, ValueError, IndexError):
                 pass
             stallp = env.get("VERIF_STALL")
             if rep["_exit"] == 97 and case is not None:
@@ -418,15 +421,19 @@ class Ctx:
             for fm in re.finditer(r"^github\.com/rminnich/go9p\.([^\s(]*(?:\([^)]*\))?[^\s(]*)\(", out[m.start():], re.M):
                 fn = fm.group(1)
                 break
-            crashes.append({"case": case, "panic": m.group(1)[:200], "func": fn})
+            crashes.append({"case": case, "panic": m.group(1)[:200], "func": fn, "closed": closed})
             self.log("server under test crashed in case %s: %s in %s" % (case, m.group(1)[:120], fn))
             if ext_out:
                 with open(ext_out, "a") as f:
                     f.write(json.dumps({"ev": "reset", "case": case}) + "\n")
-                    f.write(json.dumps({"ev": "crash", "what": m.group(1)[:200], "func": fn}) + "\n")
+                    f.write(json.dumps({"ev": "crash", "what": m.group(1)[:200], "func": fn, "closed": closed}) + "\n")
             start = case + 1
         else:
-            self.inconclusive.append("engine %s crashed more than %d times" % (run, max_restarts))
+            # every crash is registered (and judged); the cases after the last one were not executed
+            self.log("engine %s crashed more than %d times: the remaining cases are not executed" % (run, max_restarts))
+            rep["gave_up_after_crashes"] = len(crashes)
+            if not crashes:
+                self.inconclusive.append("engine %s was restarted more than %d times" % (run, max_restarts))
         rep["cases_total"] = total_cases + len(crashes)
         rep["crashes"] = crashes
         return rep, crashes
